@@ -104,3 +104,29 @@ pub fn obs_text(o: &Obs) -> String {
 }
 
 pub const SHARD_HEADER: &str = "From Coq Require Import List ZArith.\nImport ListNotations.\nOpen Scope Z_scope.\nFrom VibeSQL Require Import Sem.Syntax Sem.Rel Sem.Eval Run.SemRun.\n";
+
+/// Create 1-3 secondary indexes on random columns of the loaded tables (single and two-column, ASC / DESC).
+/// Results must not depend on them (C02), so every reference-semantics check can run with them: the index scan,
+/// index-order and index-backed subquery paths then see the same generated queries as the plain paths.
+pub fn add_random_indexes(db: &mut Database, d: &DbDef, r: &mut crate::rng::Rng, tag: &str) -> Vec<String> {
+    let mut ddl = Vec::new();
+    let n = 1 + r.below(3) as usize;
+    for i in 0..n {
+        let t = r.below(d.tables.len() as u64) as usize;
+        let w = d.tables[t].cols.len();
+        if w == 0 {
+            continue;
+        }
+        let c1 = r.below(w as u64) as usize;
+        let mut cols = vec![format!("c{}{}", c1, if r.chance(1, 4) { " DESC" } else { "" })];
+        if w > 1 && r.chance(1, 3) {
+            let c2 = (c1 + 1 + r.below((w - 1) as u64) as usize) % w;
+            cols.push(format!("c{}", c2));
+        }
+        let text = format!("CREATE INDEX ix_{}_{} ON tab{} ({})", tag, i, t, cols.join(", "));
+        if sql::exec(db, &text).is_ok() {
+            ddl.push(text);
+        }
+    }
+    ddl
+}
